@@ -110,7 +110,8 @@ func skV(sk *paillier.PrivateKey) val.V {
 	return val.Ints([]*big.Int{sk.N, sk.LambdaN, sk.PhiN, sk.P, sk.Q})
 }
 
-var sessionsC10 = [][]byte{{}, {0x24}, []byte("0123456789abcdef0123456789abcdef"), make([]byte, 1000)}
+// two different sessions of the same length follow each other (a digest cache keyed by an aliased buffer confuses them)
+var sessionsC10 = [][]byte{{}, {0x24}, {0x25}, []byte("0123456789abcdef0123456789abcdef"), []byte("fedcba9876543210fedcba9876543210"), make([]byte, 1000)}
 
 // proveAndVerify runs a prover op and feeds the resulting proof to the verifier ops.
 // build turns the prover's observation into verifier arguments; returns the verifier args (nil if the prover failed).
@@ -160,10 +161,10 @@ func c10Body(r *vc.Run) {
 		}
 		for si, sess := range sessionsC10 {
 			for wi, x := range ws {
-				if !r.Thorough() && (si+wi)%2 == 1 {
+				if !r.Thorough() && (si+wi)%2 == 1 && wi > 0 {
 					continue
 				}
-				if c10Light && (si != 2 || wi < 4) {
+				if c10Light && ((si != 3 && si != 4) || wi < 4) {
 					continue
 				}
 				a := g.below(q)
@@ -232,7 +233,9 @@ func c10Body(r *vc.Run) {
 					if c10Light {
 						ms = ms[3:]
 					}
-					for _, m := range ms {
+					for mi, m := range ms {
+						// consecutive proofs run under different sessions, same-length ones next to each other
+						sess := sessionsC10[(ai+bi+rep+mi+1)%len(sessionsC10)]
 						// Alice: c = Enc(m; x) under A's key, proof to B's parameters
 						x := g.unit(N)
 						cv := r.Case("prove/encrypt", true, "pai_encrypt", val.I(N), val.I(m), val.I(x))
